@@ -1935,7 +1935,9 @@ func (e *executor) executeClearRow(ctx context.Context, index string, c *pql.Cal
 	if err != nil {
 		return false, errors.Wrap(err, "mapreducing clearrow")
 	}
-	return result.(bool), err
+	// result is nil when there was no shard to map over (empty index).
+	changed, _ := result.(bool)
+	return changed, err
 }
 
 // executeClearRowShard executes a ClearRow() call for a single shard.
